@@ -293,7 +293,13 @@ func probeLostMode() (bool, string) {
 }
 
 func expected(c Case) map[string]ops.Node {
-	exp := map[string]ops.Node{".": {Kind: 'd'}}
+	exp := map[string]ops.Node{".": {Kind: 'd', Perm: 0xFFFF}}
+	rootEntry := false
+	defer func() {
+		if !rootEntry {
+			exp["."] = ops.Node{Kind: 'd', Perm: 0xFFFF}
+		}
+	}()
 	for _, e := range c.Entries {
 		for d := path.Dir(e.Path); d != "."; d = path.Dir(d) {
 			if _, ok := exp[d]; !ok {
@@ -305,6 +311,10 @@ func expected(c Case) map[string]ops.Node {
 	for i, e := range c.Entries {
 		if e.Dir {
 			exp[e.Path] = ops.Node{Kind: 'd', Perm: e.Perm & 0o777}
+			if e.Path == "." {
+				rootEntry = true
+				continue // the root always exists, nothing creates it in the foreground: its bits are pinned
+			}
 			if memBacked && vf.Known(knownLostMode) {
 				// known finding: a later entry below this directory makes tar call MkdirAll(dir, 0700) in the foreground while the
 				// directory's own Mkdir/Chmod runs in the background; on the in-memory FS those calls are not atomic and the mode can be lost
@@ -343,8 +353,8 @@ func compare(exp map[string]ops.Node, got ops.Snap, what string) string {
 		case !okG:
 			return fmt.Sprintf("%s lacks %q (%s)", what, k, short(e))
 		}
-		if k == "." {
-			continue
+		if k == "." && e.Perm == 0xFFFF {
+			continue // the root is not an entry: whatever the destination had
 		}
 		if e.Perm == 0xFFFF {
 			e.Perm = g.Perm
@@ -555,11 +565,19 @@ func genCase(t *rapid.T, many bool) Case {
 			entries = append(entries, Entry{Path: d, Dir: true, Perm: rapid.SampledFrom([]uint32{0o755, 0o700, 0o750, 0o711}).Draw(t, "dperm")})
 		}
 	}
+	// sometimes the root itself is an entry ("./", "/", "."): a directory that is an entry gets its permission bits too
+	if rapid.IntRange(0, 3).Draw(t, "rootentry") == 0 {
+		entries = append(entries, Entry{Path: ".", Dir: true, Perm: rapid.SampledFrom([]uint32{0o755, 0o700, 0o750, 0o711, 0o777}).Draw(t, "rootperm")})
+	}
 	// random order: children before parents allowed
 	perm := rapid.Permutation(seq(len(entries))).Draw(t, "order")
 	for _, i := range perm {
 		e := entries[i]
-		e.Spell = spell(t, e.Path, e.Dir)
+		if e.Path == "." {
+			e.Spell = rapid.SampledFrom([]string{"./", "/", ".", "//", "./."}).Draw(t, "rootspell")
+		} else {
+			e.Spell = spell(t, e.Path, e.Dir)
+		}
 		c.Entries = append(c.Entries, e)
 	}
 	if rapid.IntRange(0, 2).Draw(t, "gated") != 0 {
